@@ -90,7 +90,7 @@ func TestWorker(t *testing.T) {
 // mutex, e.g. after a handler panicked while holding it) into a prompt exit
 // with a goroutine dump, which the driver classifies.
 func stallWatchdog() {
-	limit := 150
+	limit := 90
 	if v, err := strconv.Atoi(os.Getenv("VERIF_STALL_S")); err == nil && v > 0 {
 		limit = v
 	}
